@@ -152,6 +152,57 @@ func runC19(c *Ctx) {
 		return
 	}
 
+	// the Server header carries the configured value as it is now: it derives, in this very call, from a read of the
+	// package variable Server (a copy kept in another variable goes stale when Server is set later)
+	{
+		res := core.NewResolver(false)
+		var fromServer func(v ssa.Value, d int) bool
+		fromServer = func(v ssa.Value, d int) bool {
+			if d > 8 || v == nil {
+				return false
+			}
+			v = res.V(v)
+			switch x := v.(type) {
+			case *ssa.UnOp:
+				if g, ok := x.X.(*ssa.Global); ok && x.Op == token.MUL {
+					return core.GlobalName(g) == "Server" && g.Pkg != nil && g.Pkg.Pkg.Path() == setHeader.Pkg.Pkg.Path()
+				}
+				return fromServer(x.X, d+1)
+			case *ssa.Phi:
+				for _, e := range x.Edges {
+					if !fromServer(e, d+1) {
+						return false
+					}
+				}
+				return len(x.Edges) > 0
+			case *ssa.BinOp:
+				return fromServer(x.X, d+1) || fromServer(x.Y, d+1)
+			case *ssa.Convert:
+				return fromServer(x.X, d+1)
+			case *ssa.Call:
+				for _, a := range x.Call.Args {
+					if fromServer(a, d+1) {
+						return true
+					}
+				}
+			}
+			return false
+		}
+		n := 0
+		for _, h := range headerSets(setHeader) {
+			if h.key != "Server" {
+				continue
+			}
+			n++
+			R.Check(fromServer(h.call.Call.Args[2], 0), "C19.envelope", "http|SetHeader|server-is-the-configured-value", P.InstrPos(h.call),
+				"the Server header is the package variable Server as read for this response",
+				"the Server header is not computed from the package variable Server at the time of the response (a cached or different value): a server name configured later never reaches the responses", nil)
+		}
+		if n == 0 {
+			R.Fail("C19.envelope", "http|SetHeader|server-is-the-configured-value", P.Pos(setHeader.Pos()), "SetHeader does not set the Server header", nil)
+		}
+	}
+
 	// ---- C19.order
 	counts := map[string]int{}
 	for _, fn := range fns {
